@@ -9,9 +9,10 @@
       201  no EGen/ESubmit in a poll whose query failed     <- C20_error_aborts (event list)
       202  rows after a failed query = rows before          <- C20_error_aborts (recs unchanged)
       203  status is ABORT iff the query failed (real run)  <- C20_abort_iff_error
+           (201, 202, 203 are PROVED silent on every model trace: C20_monitor_silent)
       205  NOJOBS / missing / None / non-terminal report:
            the row is unchanged and the job stays live      <- C20_nojobs_keeps, C20_partial_frame
-      207  RUNNING report: only the state column changes    <- (run-time monitor only)
+      207  RUNNING report: only the state column changes    <- C20_running_only_state
       40   the set of queried job ids = the live jobs       <- ledger coupling, see C04 *)
 From MWF Require Import Base.Util Exec.ExecBase Exec.ExecGen Exec.ExecRun Exec.ExecTrace Exec.ExecGraph
   Exec.ExecInv Exec.ExecPoll Exec.ExecFault Exec.ExecLocal.
@@ -85,6 +86,21 @@ Theorem C20_partial_frame : forall c g s p x, WF g -> Inv g s ->
 Proof. exact poll_frame. Qed.
 Print Assumptions C20_partial_frame.
 
+(** RUNNING reports (monitor code 207): a tracked step x whose delivered entries are quiet or
+    RUNNING, at least one of them RUNNING, ends the poll with status RUNNING, the same job ids
+    and restart count, still tracked and in none of the resolved sets. *)
+Theorem C20_running_only_state : forall c g s p x, WF g -> Inv g s ->
+  (forall r, In r (reports p) -> In (fst r) (inprog s)) ->
+  In x (inprog s) ->
+  (forall o, In (x, o) (delivered c p) -> quiet o = true \/ o = Some RUNNING) ->
+  In (x, Some RUNNING) (delivered c p) ->
+  let s' := fst (poll c g s p) in
+  status (getrec s' x) = RUNNING /\ jobs (getrec s' x) = jobs (getrec s x) /\
+  restarts (getrec s' x) = restarts (getrec s x) /\ In x (inprog s') /\
+  ~ In x (completed s') /\ ~ In x (failed s') /\ ~ In x (cancelled s') /\ ~ In x (ready s').
+Proof. exact poll_running. Qed.
+Print Assumptions C20_running_only_state.
+
 (** ** Run level: every executed poll of every run ([run_steps] lists them: pre-state, input,
     post-state, status; [run] is its image under the observation map). *)
 Theorem C20_run_is_steps : forall c g ps s, run c g s ps = map obs_of_step (run_steps c g s ps).
@@ -149,6 +165,26 @@ Theorem C20_run_partial_frame_valid : forall c g ps t x, WF g -> valid_pins c g 
   ~ In x (completed (st_post t)) /\ ~ In x (failed (st_post t)) /\ ~ In x (cancelled (st_post t)).
 Proof. exact run_frame_valid. Qed.
 Print Assumptions C20_run_partial_frame_valid.
+
+Theorem C20_run_running_valid : forall c g ps t x, WF g -> valid_pins c g (init g) ps = true ->
+  In t (run_steps c g (init g) ps) -> In x (inprog (st_pre t)) ->
+  (forall o, In (x, o) (delivered c (st_pin t)) -> quiet o = true \/ o = Some RUNNING) ->
+  In (x, Some RUNNING) (delivered c (st_pin t)) ->
+  status (getrec (st_post t) x) = RUNNING /\ jobs (getrec (st_post t) x) = jobs (getrec (st_pre t) x) /\
+  restarts (getrec (st_post t) x) = restarts (getrec (st_pre t) x) /\ In x (inprog (st_post t)) /\
+  ~ In x (completed (st_post t)) /\ ~ In x (failed (st_post t)) /\ ~ In x (cancelled (st_post t)).
+Proof. exact run_running_valid. Qed.
+Print Assumptions C20_run_running_valid.
+
+(** ** The monitor on the model's own trace: the codes 201, 202, 203 of [family 20] are never
+    raised on the trace of ANY run of the model from the initial state -- any graph (no
+    well-formedness needed), configuration, history of poll inputs.  (205, 207 and 40 compare
+    rows / queried ids with the ledger of live jobs; their silence is the ledger coupling of
+    Exec/ExecLedger*.v, property C04.) *)
+Theorem C20_monitor_silent : forall c g ps k, k = 201 \/ k = 202 \/ k = 203 ->
+  ~ In k (viol_of c g ps (run c g (init g) ps)).
+Proof. exact model_trace_c20_codes. Qed.
+Print Assumptions C20_monitor_silent.
 
 (** ** Non-vacuity: a concrete graph (0 -> 2 <- 1), the state after the first poll (0 and 1
     in progress), answers with faults. *)
